@@ -93,6 +93,29 @@ class Gen:
                 t += Unit.convert_from(s, a, 'U' if s.is_enzyme() else config.moles_storage_unit, b)
         return t
 
+    def clear_of_capacity(self, q, sources, dests, fan_out=1, fan_in=1):
+        """shrink the request until no destination ends within 3 % of its capacity (exact-boundary requests are generated only
+        in directed cases built from fresh containers, DESIGN.md 4.5); sources / dests are container objects"""
+        from fractions import Fraction
+        for _ in range(6):
+            near = False
+            for src in sources:
+                tot = self.measure(src, q['b'])
+                if tot <= 0:
+                    continue
+                qv = float(Fraction(q['v']) * PFX[q['p']][1])
+                aliquot = src.volume * qv / tot
+                for d in dests:
+                    if d.max_volume == float('inf'):
+                        continue
+                    newv = d.volume + aliquot * fan_in
+                    if abs(newv - d.max_volume) < 0.03 * d.max_volume:
+                        near = True
+            if not near:
+                return q
+            q = dict(q, v=dec(float(Fraction(q['v'])) * 0.8, 2, down=True))
+        return q
+
     def sub(self, kind=None, notin=()):
         c = [s for s in self.subs if (kind is None or s['kind'] in kind) and s['id'] not in notin]
         return self.rng.choice(c) if c else None
@@ -196,6 +219,8 @@ class Gen:
         s = s if s is not None else rng.choice(self.containers)
         d = d if d is not None else rng.choice([c for c in self.containers if c != s])
         q, b = self.transfer_qty(self.impl.env[s], frac, unit, any_prefix=any_prefix)
+        if frac is None or frac <= 1:
+            q = self.clear_of_capacity(q, [self.impl.env[s]], [self.impl.env[d]])
         op = {'op': 'transfer', 'src': {'c': s}, 'dst': {'c': d}, 'q': q, 'osrc': self.fresh(), 'odst': self.fresh()}
         o = self.emit(op, tag or ('xfer:' + b))
         if o['ok']:
@@ -218,6 +243,8 @@ class Gen:
             free = min(self.well_obj(d, c).max_volume - self.well_obj(d, c).volume for c in cells)
             f = min(f / n, 0.5 * free / src.volume) * n
         q, b = self.transfer_qty(src, f, unit, nshare=n)
+        if f <= 1:
+            q = self.clear_of_capacity(q, [src], [self.well_obj(d, c) for c in cells])
         op = {'op': 'transfer', 'src': {'c': s}, 'dst': {'p': d, 'r': r}, 'q': q, 'osrc': self.fresh(), 'odst': self.fresh()}
         o = self.emit(op, 'pair:c->n')
         if o['ok']:
@@ -258,6 +285,8 @@ class Gen:
             if rng.random() < 0.8:
                 return None
             q = {'v': '10', 'p': 'u', 'b': 'L'}
+        cells = dsl.region_cells(r, 0)
+        q = self.clear_of_capacity(q, [self.well_obj(s, c) for c in cells], [self.impl.env[d]], fan_in=len(cells))
         op = {'op': 'transfer', 'src': {'p': s, 'r': r}, 'dst': {'c': d}, 'q': q, 'osrc': self.fresh(), 'odst': self.fresh()}
         o = self.emit(op, 'pair:n->c')
         if o['ok']:
@@ -313,6 +342,9 @@ class Gen:
             if rng.random() < 0.8:
                 return None
             q = {'v': '5', 'p': 'u', 'b': 'L'}
+        if form != 'bad':
+            sc, dc = dsl.region_cells(rs, 0), dsl.region_cells(rd, 0)
+            q = self.clear_of_capacity(q, [self.well_obj(s, c) for c in sc], [self.well_obj(d, c) for c in dc], fan_in=(len(sc) if len(dc) == 1 else 1))
         op = {'op': 'transfer', 'src': {'p': s, 'r': rs}, 'dst': {'p': d, 'r': rd}, 'q': q, 'osrc': self.fresh(), 'odst': self.fresh()}
         o = self.emit(op, 'pair:' + form + (':same' if s == d else ':two'))
         if o['ok']:
